@@ -373,6 +373,30 @@ def show_adj(g):
     return ';'.join(f'{n}:' + ','.join(map(str, sorted(ms))) for n, ms in sorted(g.items()))
 
 
+class time_limit:
+    """a ring perception that does not come back is reported like a crash instead of hanging the check"""
+
+    def __init__(self, seconds):
+        self.seconds = seconds
+
+    def __enter__(self):
+        import signal
+
+        def handler(signum, frame):
+            raise TimeoutError(f'no result within {self.seconds}s')
+        self.old = signal.signal(signal.SIGALRM, handler)
+        signal.setitimer(signal.ITIMER_REAL, self.seconds)
+
+    def __exit__(self, *a):
+        import signal
+        signal.setitimer(signal.ITIMER_REAL, 0)
+        signal.signal(signal.SIGALRM, self.old)
+        return False
+
+
+SSSR_TIME_LIMIT = 30
+
+
 def impl_fields(mol):
     """Run the real code on `mol` (fresh caches). Returns (fields, rings or None, error kind)."""
     from chython.algorithms.rings import _connected_components, _skin_graph
@@ -385,7 +409,8 @@ def impl_fields(mol):
     f['skinns'] = show_adj(_skin_graph(ns))
     f['rc'] = str(mol.rings_count)
     try:
-        rings = [tuple(r) for r in mol.sssr]
+        with time_limit(SSSR_TIME_LIMIT):
+            rings = [tuple(r) for r in mol.sssr]
     except ImplementationError:
         return f, None, 'lib:ImplementationError'
     except Exception as e:  # crash inside the heuristic
@@ -514,10 +539,14 @@ def merge(ctx, res):
         ctx.broke(kind, name, detail)
     _state['suspects'] += res['suspects']
     for ints, sizes, ref in res['known']:
-        # confirmed on the real code by the Python oracle (never by the Lean model) before it is reported
+        # An instance of the listed finding met in a stream: confirmed on the real code by the Python oracle (never by the
+        # Lean model) and recorded. It is NOT pushed through ctx.fail here — that would suppress the failing-input search
+        # for unrelated breakage; the standing probe of known_findings/C06.json prints the KNOWN-FINDING line on every run.
         fl = [x for x in property_failures(ints, check_numbering=False, apply_exemptions=False) if x[0] == 'not-minimum']
-        if fl:
-            ctx.fail(KNOWN_SIG, f'ring system with >= 3 long disjoint bridges: {fl[0][1]}', {'wire': ints, 'clause': 'not-minimum'})
+        ctx.dist('known-finding-instance-confirmed' if fl else 'known-finding-instance-not-confirmed')
+        if not fl:
+            ctx.broke('relational', 'minimum-size-multiset',
+                      f'Lean reference says sizes {ref} but the Python oracle accepts {sizes}; wire={ints}')
 
 
 def labelled_graphs(n, lo, hi, max_mu):
@@ -792,7 +821,8 @@ def property_failures(ints, check_numbering=True, rng=None, apply_exemptions=Tru
     if {n: set(ms) for n, ms in sk.items()} != core2:
         add('skin-graph', f'skin_graph={sk} but the 2-core is {core2}')
     try:
-        rings = [tuple(r) for r in mol.sssr]
+        with time_limit(SSSR_TIME_LIMIT):
+            rings = [tuple(r) for r in mol.sssr]
     except ImplementationError as e:
         add('sssr-raises', f'ImplementationError({e})')
         return out
